@@ -73,6 +73,19 @@ func (k Keeper) CheckAndLiquidateUnhealthyPosition(ctx sdk.Context, mtp *types.M
 		}
 	} else {
 		ctx.Logger().Debug(errors.Wrap(types.ErrMTPHealthy, "skipping executing force close because mtp is healthy").Error())
+
+		// interest and funding settlement above changed custody and amm pool balances
+		if k.hooks != nil {
+			ammPool, err = k.GetAmmPool(ctx, mtp.AmmPoolId)
+			if err != nil {
+				return err
+			}
+			params := k.GetParams(ctx)
+			err = k.hooks.AfterPerpetualPositionModified(ctx, ammPool, pool, mtp.GetAccountAddress(), params.EnableTakeProfitCustodyLiabilities)
+			if err != nil {
+				return err
+			}
+		}
 	}
 
 	return nil
